@@ -93,6 +93,8 @@ def corpus():
         dict(data=d20, cl=20, buf=4, sched=[], maxb=None, via='app', points=[['after', 5], ['gen', None]]),
         # the body is first touched only after the response has started (second chunk of a streaming handler)
         dict(data=list(range(40)), cl=34, buf=8, sched=[], maxb=None, via='app', points=[['gen_late', None]]),
+        dict(data=list(range(40)), cl=34, buf=8, sched=[], maxb=None, via='app', points=[['before', None], ['handler', 'mount']]),
+        dict(data=list(range(40)), cl=34, buf=64, sched=[3, 3], maxb=None, via='app', points=[['handler', 2], ['gen', 'mount'], ['after', None]]),
         dict(data=list(range(40)), cl=34, buf=64, sched=[3, 3], maxb=None, via='app', points=[['gen_late', 4], ['gen_late', None]]),
         # unrelated headers must not change which bytes are the body, through the application too
         dict(data=list(range(40)), cl=34, buf=8, sched=[], maxb=None, via='app', points=[['handler', None]], extra='te_identity'),
@@ -153,6 +155,8 @@ def gen(rng, n):
                               for _ in range(rng.randrange(1, 5))]
             if rng.random() < 0.3:
                 case['extra'] = rng.choice(EXTRAS)
+            if rng.random() < 0.35:
+                case['points'].append([rng.choice(['before', 'handler', 'gen', 'gen_late', 'after']), 'mount'])
             if not any(pt[1] is None for pt in case['points']):
                 case['points'].append([rng.choice(['handler', 'gen']), None])
             case['sched'] = case['sched'][:20]
@@ -282,6 +286,7 @@ def _run_ops(case):
 def _run_app(case):
     """the body as seen at several points of the request's life inside Ombott.__call__"""
     import ombott
+    from ombott import Request
     st = FragStream(case['data'], case['sched'])
     app = ombott.Ombott(dict(max_memfile_size=case['buf'], max_body_size=case['maxb'], catchall=False))
     reads, spill = [], []
@@ -292,6 +297,15 @@ def _run_app(case):
     def look(where):
         for w, k in pts:
             if w == where:
+                if k == 'mount':
+                    # the next consumer of the environ: what a dispatcher hands to an application mounted behind
+                    # this one (the CGI/WSGI keys without this application's private 'ombott.*' entries), after the
+                    # body was buffered and rewound
+                    app.request.body
+                    handed = {kk: v for kk, v in app.request.environ.items() if not kk.startswith('ombott.')}
+                    inner = Request(handed, config=dict(max_memfile_size=case['buf'], max_body_size=case['maxb']))
+                    reads.append([w, None, list(inner.body.read())])
+                    continue
                 b = app.request.body
                 spill.append(not isinstance(b, BytesIO))
                 reads.append([w, k, list(b.read() if k is None else b.read(k))])
